@@ -149,6 +149,7 @@ func main() {
 	known := flag.String("known", "", "known_findings.json")
 	traceLog := flag.Bool("tracelog", false, "record per-run trace hashes (determinism self-test)")
 	maxViol := flag.Int("maxviol", 3, "stop after this many distinct violations")
+	shrinkLim := flag.Duration("shrink", 60*time.Second, "time limit for minimising one violation")
 	dump := flag.Bool("dump", false, "debug: print per-scenario cost")
 	dumpSeed := flag.Uint64("dumpseed", 0, "debug: run one seed, print the scenario and the yields per op")
 	flag.Parse()
@@ -268,7 +269,7 @@ func main() {
 				sc = o.Repro
 			}
 			sc.Expect = o.Violation
-			small, evals := shrink(sc, wd.run, 60*time.Second)
+			small, evals := shrink(sc, wd.run, *shrinkLim)
 			path := filepath.Join(*replayDir, fmt.Sprintf("%s-%d.json", *prop, seed))
 			writeScenario(path, small)
 			sum.Violations = append(sum.Violations, ViolationReport{Rec: small.Expect, Replay: path, Seed: seed, ShrunkIn: evals, Orig: orig})
